@@ -81,6 +81,9 @@ func checkArbitrary(script *lookupScript) (viol string, oc rawOutcome) {
 	}
 	oc.frames = len(frames)
 	oc.success = out1.err == nil
+	if !oc.success && !out1.isSentinel() {
+		return fmt.Sprintf("%s out{%s} frames=%d", sigNotSentinel, out1, len(frames)), oc
+	}
 	if oc.success {
 		// necessary conditions for success
 		for _, f := range []int{4, 6} {
